@@ -501,3 +501,12 @@ fn replay_c03_ringitem_delete() {
 }
 """ % (adds, lc, j)
     return ("replay_c03_ringitem_delete", src)
+
+
+def c03_orphan_disturbs_nothing(ctx, v):
+    """tip, chain index and on-chain flags must keep describing the chain whose effects the
+    spendable set holds: a block that arrives before its parent must not take a longest-chain block
+    out of the index while nothing is unwound (same obligation as C05 c05_orphan_disturbs_nothing;
+    the below-the-tip class is the same listed known finding)."""
+    from . import obl_c05
+    obl_c05.c05_orphan_disturbs_nothing(ctx, v, pid="C03", obligation="c03_orphan_disturbs_nothing")
